@@ -60,6 +60,58 @@ pub fn compile_text(text: &str, derives: &[String], user_ctx: bool) -> Result<St
     }
 }
 
+/// identifiers `unsafe`, `static`, `thread_local` in generated code (string/char literals, lifetimes and raw
+/// identifiers are not code keywords and are skipped)
+pub fn scan_forbidden(code: &str) -> Vec<String> {
+    let b: Vec<char> = code.chars().collect();
+    let mut i = 0;
+    let mut hits = vec![];
+    while i < b.len() {
+        let c = b[i];
+        if c == '"' {
+            i += 1;
+            while i < b.len() && b[i] != '"' {
+                if b[i] == '\\' {
+                    i += 1;
+                }
+                i += 1;
+            }
+            i += 1;
+        } else if c == '\'' {
+            // char literal or lifetime
+            if i + 2 < b.len() && b[i + 1] == '\\' {
+                // escaped char literal: skip to closing quote
+                i += 2;
+                while i < b.len() && b[i] != '\'' {
+                    i += 1;
+                }
+                i += 1;
+            } else if i + 2 < b.len() && b[i + 2] == '\'' {
+                i += 3;
+            } else {
+                // lifetime: skip the identifier
+                i += 1;
+                while i < b.len() && (b[i].is_alphanumeric() || b[i] == '_') {
+                    i += 1;
+                }
+            }
+        } else if c.is_alphabetic() || c == '_' {
+            let start = i;
+            while i < b.len() && (b[i].is_alphanumeric() || b[i] == '_') {
+                i += 1;
+            }
+            let word: String = b[start..i].iter().collect();
+            let raw = start >= 2 && b[start - 1] == '#' && b[start - 2] == 'r';
+            if !raw && (word == "unsafe" || word == "static" || word == "thread_local") {
+                hits.push(word);
+            }
+        } else {
+            i += 1;
+        }
+    }
+    hits
+}
+
 fn arg(args: &[String], name: &str) -> Option<String> {
     args.iter().position(|a| a == name).and_then(|i| args.get(i + 1).cloned())
 }
@@ -108,12 +160,7 @@ fn build_batch(specs: Vec<GrammarSpec>, out: &Path, crates: usize, plan: &str, s
                 let has_debug = spec.cfg.derives.iter().any(|d| d == "Debug") && !spec.flags.compile_only;
                 let gl = glue::emit(&with_w, &sh, &glue::GlueCfg { has_debug, user_ctx: spec.cfg.user_ctx });
                 // textual scan shared by C03/C20: no unsafe / static / thread_local in generated code
-                let mut hits = vec![];
-                for tok in code.split(|c: char| !(c.is_alphanumeric() || c == '_' || c == '#')) {
-                    if tok == "unsafe" || tok == "static" || tok == "thread_local" {
-                        hits.push(tok.to_string());
-                    }
-                }
+                let hits = scan_forbidden(&code);
                 if !hits.is_empty() {
                     scans.insert(spec.id.clone(), hits);
                 }
@@ -126,8 +173,19 @@ fn build_batch(specs: Vec<GrammarSpec>, out: &Path, crates: usize, plan: &str, s
     // distribute over crates
     let k = crates.max(1).min(entries.len().max(1));
     let mut per: Vec<Vec<usize>> = vec![vec![]; k];
-    for (i, _) in entries.iter().enumerate() {
-        per[i % k].push(i);
+    {
+        // members of one group go to the same crate
+        let mut slot: BTreeMap<String, usize> = BTreeMap::new();
+        let mut next = 0usize;
+        for (i, e) in entries.iter().enumerate() {
+            let key = e.0.group.clone().unwrap_or_else(|| e.0.id.clone());
+            let s = *slot.entry(key).or_insert_with(|| {
+                let s = next % k;
+                next += 1;
+                s
+            });
+            per[s].push(i);
+        }
     }
     let mut models = vec![];
     let existing: Vec<PathBuf> = std::fs::read_dir(out).unwrap().flatten().map(|e| e.path()).filter(|p| p.is_dir()).collect();
@@ -158,8 +216,12 @@ fn build_batch(specs: Vec<GrammarSpec>, out: &Path, crates: usize, plan: &str, s
                 "pub mod {id} {{ include!(\"{id}.rs\"); pub mod glue {{ use super::*; include!(\"{id}_glue.rs\"); }} }}\n"
             ));
             table.push_str(&format!("        batchrt::GrammarEntry {{ id: {:?}, rules: {id}::glue::RULES }},\n", id));
+            // public type declarations = everything before the private implementation module
+            let types_part = code.split("mod peginator_generated").next().unwrap_or("");
             models.push(serde_json::json!({
                 "id": id, "krate": cname, "text": text, "spec": spec,
+                "types_hash": format!("{:016x}", verif_core::util::fnv64(types_part.as_bytes())),
+                "types_text": if spec.group.is_some() && spec.profile == "include" { types_part } else { "" },
             }));
         }
         table.push_str("    ]);\n}\n");
